@@ -480,12 +480,14 @@ func decodingOfP(p *Program, info *types.Info, e ast.Expr) (fixedDecoding, bool)
 		return d, true
 	}
 	cur := ast.Unparen(e)
+	var nearest types.Type // the conversion applied directly to the helper's result
 	for {
 		c, ok := cur.(*ast.CallExpr)
 		if !ok {
 			return fixedDecoding{}, false
 		}
 		if tv, isT := info.Types[c.Fun]; isT && tv.IsType() && len(c.Args) == 1 {
+			nearest = tv.Type
 			cur = ast.Unparen(c.Args[0])
 			continue
 		}
@@ -514,6 +516,17 @@ func decodingOfP(p *Program, info *types.Info, e ast.Expr) (fixedDecoding, bool)
 				dec.Conv = exprStr(rt.List[0].Type)
 			}
 		}
+		// uint16(decShort(..)): a conversion to the unsigned type of the same size reinterprets the bits, and the
+		// widening that follows zero-extends
+		if nearest != nil {
+			if nb, ok := nearest.Underlying().(*types.Basic); ok && nb.Info()&types.IsUnsigned != 0 {
+				if rt := info.TypeOf(c); rt != nil {
+					if rb, ok := rt.Underlying().(*types.Basic); ok && p.sizeofBasic(rb) == p.sizeofBasic(nb) {
+						dec.Conv = nb.Name()
+					}
+				}
+			}
+		}
 		dec.Base, dec.Offset = base, off+dec.Offset
 		dec.How = h.Name + " (" + dec.How + ")"
 		return dec, true
@@ -521,3 +534,17 @@ func decodingOfP(p *Program, info *types.Info, e ast.Expr) (fixedDecoding, bool)
 }
 
 func isUnsignedName(s string) bool { return strings.HasPrefix(s, "uint") || s == "byte" }
+
+func (p *Program) sizeofBasic(b *types.Basic) int {
+	switch b.Kind() {
+	case types.Int8, types.Uint8:
+		return 1
+	case types.Int16, types.Uint16:
+		return 2
+	case types.Int32, types.Uint32:
+		return 4
+	case types.Int64, types.Uint64:
+		return 8
+	}
+	return 0
+}
